@@ -318,6 +318,12 @@ var Features = []Feature{
 		t := d.Table("t")
 		t.Idx = append(t.Idx, Idx{Name: "t_b", Unique: true, Parts: []Part{{Col: "b"}}, Inline: true})
 	}},
+	// two UNIQUE constraints over the same columns in another order: two automatic indexes, two names.
+	{Name: "uq_inline_a_b_and_b_a", Apply: func(d *DB) {
+		t := d.Table("t")
+		t.Idx = append(t.Idx, Idx{Name: "t_a_b", Unique: true, Parts: []Part{{Col: "a"}, {Col: "b"}}, Inline: true},
+			Idx{Name: "t_b_a", Unique: true, Parts: []Part{{Col: "b"}, {Col: "a"}}, Inline: true})
+	}},
 	{Name: "check_named", Group: "ck_a", Apply: func(d *DB) { t := d.Table("t"); t.Checks = append(t.Checks, Check{Name: "ck_a", Expr: "a > 0"}) }},
 	// the same constraint name with another expression: between the two states only the expression changes.
 	{Name: "check_named_other_expr", Group: "ck_a", Apply: func(d *DB) { t := d.Table("t"); t.Checks = append(t.Checks, Check{Name: "ck_a", Expr: "a > -10"}) }},
